@@ -20,6 +20,7 @@ different signature (``.../gram/mismatch``, ``.../normal-eq/residual``).
 import contextlib
 import io
 import itertools
+import random
 import traceback
 
 import numpy as np
@@ -33,9 +34,12 @@ RULE = ("Five sub-checks. uniform_direct: level vector (d 1-3, levels 1-3, <=64 
         "build_A_matrix / build_C_matrix / solve_regression(_smooth) on that level vector (the protocol of the "
         "repository's tests). dimwise_direct: the same on non-uniform tensor grids (per dimension a sorted subset of "
         "k/16 containing 0 and 1) through build_A_matrix_dimension_wise / build_C_matrix_dimension_wise / "
-        "solve_regression_dimension_wise(_smooth). train: Regression(...).train(pct, lmin, lmax[, noisy]) and every "
-        "component grid of the returned scheme (scaling to [0.05,0.95], split keeps (x,y) pairs, design matrix, normal "
-        "equations with the reference matrix). train_sa: train_spatially_adaptive(pct, margin, tol, max_evaluations); one quarter small cases (6-60 drawn samples, "
+        "solve_regression_dimension_wise(_smooth). train: ONE Regression object and a sequence of 1-3 calls: train(pct, lmin, lmax, noisy) with drawn arguments, "
+        "in a good share the same percentage and a growing maximum level (schemes share level vectors) with noisy_data in half "
+        "the calls, or train() calls followed by train_spatially_adaptive() calls; numpy's global RNG is re-seeded before each "
+        "call from (case rng, call index). After EVERY call all clauses are evaluated on what the object reports now (scaling to "
+        "[0.05,0.95], split keeps (x,y) pairs, design matrix and normal equations with the reference matrix for every component "
+        "grid of the returned scheme against the current training data/targets and get_result()). train_sa: train_spatially_adaptive(pct, margin, tol, max_evaluations); one quarter small cases (6-60 drawn samples, "
         "<=30 evaluations), three quarters bulk cases (2-D, some 3-D, 100-300 seeded uniform samples, 40-100 evaluations, thorough "
         "200, oscillating / corner-step / corner-peak targets, mostly lambda=0 or matrix I). EVERY call of "
         "calculate_operation_dimension_wise is observed through an instance-level wrapper and the surpluses the operation holds "
@@ -59,6 +63,9 @@ ASSUMPTIONS = [
     "creates it internally); the non-uniform grids it does not reach are covered by dimwise_direct",
     "targets are mostly >= -1: a target below -1 is rejected at construction (F-C20h), such cases (about one in ten) only "
     "exercise that clause; all tutorial data sets have targets >= 0",
+    "train sequences: a train() call AFTER train_spatially_adaptive() on the same object is not generated (it raises "
+    "AttributeError on the unchanged tree: the spatially adaptive call leaves its GlobalTrapezoidalGrid and dimension_wise=True "
+    "behind); run_train recognises it by cause once GENERATE_TRAIN_AFTER_SA is switched on",
     "uniform_direct / dimwise_direct follow the protocol of test/test_Regression.py (training set := scaled data set, "
     "grid.numPoints set by the caller, methods called directly)",
 ]
@@ -548,7 +555,58 @@ def run_dimwise_direct(case):
     return _finish(out)
 
 
+# a train() after train_spatially_adaptive() on the same object raises AttributeError on the unchanged tree (train_spatially_
+# adaptive replaces self.grid by a GlobalTrapezoidalGrid and sets dimension_wise; train() resets neither).  run_train can
+# execute and recognise such a sequence (signature train/sequence/train-after-spatially-adaptive-keeps-dimension-wise-grid),
+# but it is only generated once this flag is switched on (it is a separate finding that has to be listed first).
+GENERATE_TRAIN_AFTER_SA = False
+
+
+def _seed_call(case, index):
+    """global RNGs (noisy_data draws from numpy's) are re-seeded before every call from (case rng, call index)"""
+    seed = (int(case.get("rng", 0)) * 1000003 + 7919 * (index + 1)) % (2 ** 32)
+    np.random.seed(seed)
+    random.seed(seed)
+
+
+def _calls_of(case):
+    if "calls" in case:
+        return case["calls"]
+    return [dict(kind="train", pct=case["pct"], lmin=case["lmin"], lmax=case["lmax"], noisy=case["noisy"])]
+
+
+def _check_train_state(out, sub, op, combi, lam, matrix, tag0):
+    """all clauses of one train() call, evaluated on what the object reports NOW: training data / targets, scheme, get_result()"""
+    Xt = np.asarray(op.training_data, dtype=float)
+    yt = np.asarray(op.training_target_values, dtype=float)
+    aniso = False
+    nb = 0
+    result = op.get_result()
+    for g in combi.scheme:
+        lv = [int(v) for v in g.levelvector]
+        aniso = aniso or len(set(lv)) > 1
+        tag = "%slv=%s" % (tag0, lv)
+        key = tuple(lv)
+        if key not in result:
+            out.bad("%s/surplus/missing" % sub, tag)
+            continue
+        nodes = [uniform_nodes(l) for l in lv]
+        A_cands = design_candidates("uniform", nodes, Xt)
+        nb = max(nb, A_cands[0][1].shape[1])
+        op.grid.numPoints = 2 ** np.asarray(lv, dtype=int) - 1
+        with contextlib.redirect_stdout(io.StringIO()):
+            A = op.build_A_matrix(lv)
+        check_design(out, sub, A, A_cands, tag)
+        check_solution(out, sub, "uniform", lv, A_cands, yt, result[key], lam, matrix, tag)
+    s0 = sum(float(g.coefficient) for g in combi.scheme)
+    if abs(s0 - 1.0) > TOL_SUM:
+        out.bad("%s/scheme/combination-coefficients-do-not-sum-to-one" % sub, "%ssum=%r" % (tag0, s0))
+    return dict(aniso=aniso, nb=nb, grids=len(combi.scheme), ntrain=len(yt))
+
+
 def run_train(case):
+    """one Regression object, a sequence of 1-3 train() / train_spatially_adaptive() calls; after EVERY call all clauses are
+    evaluated against the object's current public state"""
     out = Outcome()
     sub = "train"
     X, y = build_data(case)
@@ -556,35 +614,62 @@ def run_train(case):
     if op is None:
         return _finish(out)
     ok = check_scaling(out, sub, op, X, y)
-    with contextlib.redirect_stdout(io.StringIO()):
-        combi = op.train(case["pct"], case["lmin"], case["lmax"], bool(case["noisy"]))
-    if ok:
-        check_pairs(out, sub, op, bool(case["noisy"]))
-    Xt = np.asarray(op.training_data, dtype=float)
-    yt = np.asarray(op.training_target_values, dtype=float)
+    lam, matrix = case["lam"], case["matrix"]
+    calls = _calls_of(case)
+    sa_solves = []
+    observed = False
     aniso = False
-    nb = 0
-    for g in combi.scheme:
-        lv = [int(v) for v in g.levelvector]
-        aniso = aniso or len(set(lv)) > 1
-        tag = "lv=%s" % lv
-        key = tuple(lv)
-        if key not in op.surpluses:
-            out.bad("%s/surplus/missing" % sub, tag)
-            continue
-        nodes = [uniform_nodes(l) for l in lv]
-        A_cands = design_candidates("uniform", nodes, Xt)
-        A_ref = A_cands[0][1]
-        nb = max(nb, A_ref.shape[1])
-        op.grid.numPoints = 2 ** np.asarray(lv, dtype=int) - 1
-        with contextlib.redirect_stdout(io.StringIO()):
-            A = op.build_A_matrix(lv)
-        check_design(out, sub, A, A_cands, tag)
-        check_solution(out, sub, "uniform", lv, A_cands, yt, op.surpluses[key], case["lam"], case["matrix"], tag)
-    out.nontrivial = case["d"] >= 2 and aniso and case["lam"] > 0 and case["matrix"] == "C"
-    out.cls("d=%d" % case["d"], "matrix=%s" % case["matrix"], "lambda=0" if case["lam"] == 0 else "lambda>0",
-            "noisy" if case["noisy"] else "exact-targets", "grids=%d" % min(len(combi.scheme), 6))
-    out.info.update(max_basis=nb, max_dim=case["d"], max_grids=len(combi.scheme), max_train=len(yt))
+    nb = grids = ntrain = 0
+    seq = []
+    prev = None
+    for i, call in enumerate(calls):
+        tag0 = "call %d/%d %s: " % (i + 1, len(calls), {k: v for k, v in call.items()})
+        _seed_call(case, i)
+        noisy = bool(call["noisy"])
+        if call["kind"] == "train":
+            seq.append("T")
+            try:
+                with contextlib.redirect_stdout(io.StringIO()):
+                    combi = op.train(call["pct"], call["lmin"], call["lmax"], noisy)
+            except AttributeError as e:
+                fr = [f for f in traceback.extract_tb(e.__traceback__) if "/sparseSpACE/" in f.filename.replace("\\", "/")]
+                if "S" in seq and getattr(op, "dimension_wise", False) and fr and fr[-1].name == "setCurrentArea":
+                    out.bad("%s/sequence/train-after-spatially-adaptive-keeps-dimension-wise-grid" % sub, "%s%s" % (tag0, e))
+                    out.cls("train-after-sa-crashed")
+                    break
+                raise
+            if ok:
+                check_pairs(out, sub, op, noisy)
+            st_ = _check_train_state(out, sub, op, combi, lam, matrix, tag0)
+            if (prev is not None and prev["kind"] == "train" and prev["pct"] == call["pct"] and prev["lmin"] == call["lmin"]
+                    and call["lmax"] > prev["lmax"]):
+                out.cls("second-train-same-percentage-larger-lmax")
+                if noisy or prev["noisy"]:
+                    out.cls("second-train-same-percentage-larger-lmax-noisy")
+        else:
+            seq.append("S")
+            if not observed:
+                _observe_sa(op, sa_solves)
+                observed = True
+            del sa_solves[:]
+            with contextlib.redirect_stdout(io.StringIO()):
+                sa = op.train_spatially_adaptive(call["pct"], call["margin"], call["tol"], call["maxev"], False, noisy)
+            if ok:
+                check_pairs(out, sub, op, noisy)
+            st_ = _check_sa_state(out, sub, op, sa, sa_solves, lam, matrix, tag0)
+        aniso = aniso or st_["aniso"]
+        nb, grids, ntrain = max(nb, st_["nb"]), max(grids, st_["grids"]), max(ntrain, st_["ntrain"])
+        if noisy:
+            out.cls("noisy")
+        prev = call
+        if out.violations:
+            break
+    out.nontrivial = case["d"] >= 2 and aniso and ((lam > 0 and matrix == "C") or len(calls) >= 2)
+    out.cls("d=%d" % case["d"], "matrix=%s" % matrix, "lambda=0" if lam == 0 else "lambda>0",
+            "calls-per-object=%d" % len(calls), "sequence=" + "".join(seq), "grids=%d" % min(grids, 6))
+    if not any(c["noisy"] for c in calls):
+        out.cls("exact-targets")
+    out.info.update(max_basis=nb, max_dim=case["d"], max_grids=grids, max_train=ntrain, max_calls_per_object=len(calls))
     return _finish(out)
 
 
@@ -604,24 +689,12 @@ def _observe_sa(op, calls):
     op.calculate_operation_dimension_wise = wrapped
 
 
-def run_train_sa(case):
-    out = Outcome()
-    sub = "train_sa"
-    X, y = build_data(case)
-    op = make_regression(X, y, case, out, sub)
-    if op is None:
-        return _finish(out)
-    ok = check_scaling(out, sub, op, X, y)
-    calls = []
-    _observe_sa(op, calls)
-    with contextlib.redirect_stdout(io.StringIO()):
-        sa = op.train_spatially_adaptive(case["pct"], case["margin"], case["tol"], case["maxev"], False, bool(case["noisy"]))
-    if ok:
-        check_pairs(out, sub, op, bool(case["noisy"]))
+def _check_sa_state(out, sub, op, sa, calls, lam, matrix, tag0=""):
+    """all clauses of one train_spatially_adaptive() call from the solves observed during that call and the final state"""
     if not calls:
-        out.bad("%s/observer/no-component-grid-evaluated" % sub, "")
-        return out
-    lam, matrix = case["lam"], case["matrix"]
+        out.bad("%s/observer/no-component-grid-evaluated" % sub, tag0)
+        return dict(aniso=False, nonuni=False, nb=0, grids=len(sa.scheme), ntrain=len(op.training_target_values), solves=0,
+                    distinct=0, level=0, same_shape_new_coords=False)
     # (a) EVERY observed solve: the surpluses stored for the level vector when the call returns satisfy the normal equations
     #     on the grid (stripes) passed to THAT call.  Results are memoised on (grid, surpluses, data), so a re-evaluation of
     #     an unchanged grid costs nothing, while a stale vector on a changed grid is a new key and is checked.
@@ -632,7 +705,7 @@ def run_train_sa(case):
     nb = 0
     for i, c in enumerate(calls):
         nodes, lv = c["nodes"], c["lv"]
-        tag = "solve %d of %d lv=%s nodes=%s" % (i + 1, len(calls), list(lv), [[round(v, 6) for v in n] for n in nodes])
+        tag = "%ssolve %d of %d lv=%s nodes=%s" % (tag0, i + 1, len(calls), list(lv), [[round(v, 6) for v in n] for n in nodes])
         prev = last_nodes.get(lv)
         if prev is not None and prev != nodes and tuple(map(len, prev)) == tuple(map(len, nodes)):
             same_shape_new_coords = True
@@ -658,7 +731,7 @@ def run_train_sa(case):
     distinct = sorted(design_cache, key=lambda n: -int(np.prod([len(x) - 2 for x in n])))
     for nodes in distinct[:6]:
         nl = [list(n) for n in nodes]
-        tag = "nodes=%s" % [[round(v, 6) for v in n] for n in nl]
+        tag = "%snodes=%s" % (tag0, [[round(v, 6) for v in n] for n in nl])
         with contextlib.redirect_stdout(io.StringIO()):
             A = op.build_A_matrix_dimension_wise(nl, None)
         check_design(out, sub, A, design_cache[nodes], tag)
@@ -677,18 +750,41 @@ def run_train_sa(case):
             out.bad("%s/surplus/missing" % sub, "final scheme member lv=%s" % (lv,))
         elif lv in last_alpha and last_alpha[lv] is not None and not np.array_equal(np.asarray(stored, dtype=float), last_alpha[lv]):
             out.bad("%s/surplus/changed-after-last-solve" % sub, "lv=%s" % (lv,))
-    out.nontrivial = case["d"] >= 2 and aniso and nonuni and ((lam > 0 and matrix == "C") or len(calls) >= 20)
+    return dict(aniso=aniso, nonuni=nonuni, nb=nb, grids=len(sa.scheme), ntrain=len(calls[0]["y"]), solves=len(calls),
+                distinct=len(design_cache), level=max(max(c["lv"]) for c in calls), same_shape_new_coords=same_shape_new_coords)
+
+
+def run_train_sa(case):
+    out = Outcome()
+    sub = "train_sa"
+    X, y = build_data(case)
+    op = make_regression(X, y, case, out, sub)
+    if op is None:
+        return _finish(out)
+    ok = check_scaling(out, sub, op, X, y)
+    calls = []
+    _observe_sa(op, calls)
+    _seed_call(case, 0)
+    with contextlib.redirect_stdout(io.StringIO()):
+        sa = op.train_spatially_adaptive(case["pct"], case["margin"], case["tol"], case["maxev"], False, bool(case["noisy"]))
+    if ok:
+        check_pairs(out, sub, op, bool(case["noisy"]))
+    lam, matrix = case["lam"], case["matrix"]
+    r = _check_sa_state(out, sub, op, sa, calls, lam, matrix)
+    if not calls:
+        return _finish(out)
+    out.nontrivial = case["d"] >= 2 and r["aniso"] and r["nonuni"] and ((lam > 0 and matrix == "C") or r["solves"] >= 20)
     out.cls("d=%d" % case["d"], "matrix=%s" % matrix, "lambda=0" if lam == 0 else "lambda>0",
-            "non-uniform-grid" if nonuni else "uniform-grids-only",
-            "solves<20" if len(calls) < 20 else ("solves 20-49" if len(calls) < 50 else "solves>=50"))
+            "non-uniform-grid" if r["nonuni"] else "uniform-grids-only",
+            "solves<20" if r["solves"] < 20 else ("solves 20-49" if r["solves"] < 50 else "solves>=50"))
     if "gen" in case:
         out.cls("bulk-data", "target=" + case["gen"]["mode"])
-    if same_shape_new_coords:
+    if r["same_shape_new_coords"]:
         out.cls("same-shape-different-coordinates-for-a-levelvector")
-    if max(max(c["lv"]) for c in calls) >= 4:
+    if r["level"] >= 4:
         out.cls("level>=4-reached")
-    out.info.update(max_basis=nb, max_dim=case["d"], max_solves_per_case=len(calls), max_distinct_grids=len(design_cache),
-                    max_level=max(max(c["lv"]) for c in calls), max_train=len(calls[0]["y"]))
+    out.info.update(max_basis=r["nb"], max_dim=case["d"], max_solves_per_case=r["solves"], max_distinct_grids=r["distinct"],
+                    max_level=r["level"], max_train=r["ntrain"])
     return _finish(out)
 
 
@@ -708,41 +804,51 @@ def run_opticom(case):
             combi = op.train_spatially_adaptive(case["pct"], case["margin"], case["tol"], case["maxev"], False, False)
         else:
             combi = op.train(case["pct"], case["lmin"], case["lmax"], False)
-    s0 = sum(float(g.coefficient) for g in combi.scheme)
-    if abs(s0 - 1.0) > TOL_SUM:
-        out.bad("%s/sum/combination-coefficients-before-optimisation" % sub, "sum=%r" % s0)
+    rounds = [case["options"]]
+    if case.get("second") and not case["sa"]:
+        rounds.append(case["second"]["options"])
     applied = 0
-    for option in case["options"]:
-        tag = "%s option %d (lambda=%g, %d grids)" % ("spatially adaptive" if case["sa"] else "standard", option, case["lam"], len(combi.scheme))
-        try:
+    for rnd, options in enumerate(rounds):
+        if rnd == 1:
+            # same object trained again (same percentage, larger maximum level), then optimised again
+            _seed_call(case, rnd)
             with contextlib.redirect_stdout(io.StringIO()):
-                if case["sa"]:
-                    op.optimize_coefficients_spatially_adaptive(combi, option)
-                else:
-                    op.optimize_coefficients(combi, option)
-        except ValueError as e:
-            # F-C20e is recognised by its cause: a size-1 array assigned to a scalar cell of the Opticom matrix
-            fr = [f for f in traceback.extract_tb(e.__traceback__) if "/sparseSpACE/" in f.filename.replace("\\", "/")]
-            if ("setting an array element with a sequence" in str(e) and fr and fr[-1].name in OPTICOM_CRASH_SITES
-                    and (fr[-1].line or "").startswith("matrix[")):
-                out.bad("%s/crash/size-1-array-stored-into-scalar-cell:%s" % (sub, fr[-1].name), "%s: %s at %s:%d `%s`"
-                        % (tag, e, fr[-1].filename.split("/")[-1], fr[-1].lineno, fr[-1].line))
-                out.cls("option-%d-crashed" % option)
-                continue
-            raise
-        applied += 1
-        coeffs = np.array([np.asarray(g.coefficient, dtype=float).reshape(-1)[0] if np.size(g.coefficient) == 1 else np.nan
-                           for g in combi.scheme])
-        s = float(np.sum(coeffs))
-        out.cls("option-%d-applied" % option)
-        if not np.all(np.isfinite(coeffs)):
-            out.bad("%s/sum/coefficients-not-finite" % sub, "%s: %s" % (tag, coeffs[:6]))
-        elif abs(s - 1.0) > TOL_SUM + 1e-12 * float(np.sum(np.abs(coeffs))):
-            # rounding of the normalisation c_i / sum(c) is proportional to sum|c_i| (ill-conditioned Opticom systems give
-            # coefficients of size 1e8 that cancel); seen on the unchanged tree: <= 5e-17 * sum|c_i|
-            out.bad("%s/sum/not-one" % sub, "%s: sum=%r, sum|c_i|=%.3g" % (tag, s, float(np.sum(np.abs(coeffs)))))
-        if np.isfinite(s):
-            out.info["max_sum_dev_rel"] = max(out.info.get("max_sum_dev_rel", 0.0), abs(s - 1.0) / max(1.0, float(np.sum(np.abs(coeffs)))))
+                combi = op.train(case["pct"], case["lmin"], case["second"]["lmax"], False)
+            out.cls("second-training-round")
+        s0 = sum(float(g.coefficient) for g in combi.scheme)
+        if abs(s0 - 1.0) > TOL_SUM:
+            out.bad("%s/sum/combination-coefficients-before-optimisation" % sub, "round %d sum=%r" % (rnd + 1, s0))
+        for option in options:
+            tag = "%s option %d (lambda=%g, %d grids)" % ("spatially adaptive" if case["sa"] else "standard", option, case["lam"], len(combi.scheme))
+            try:
+                with contextlib.redirect_stdout(io.StringIO()):
+                    if case["sa"]:
+                        op.optimize_coefficients_spatially_adaptive(combi, option)
+                    else:
+                        op.optimize_coefficients(combi, option)
+            except ValueError as e:
+                # F-C20e is recognised by its cause: a size-1 array assigned to a scalar cell of the Opticom matrix
+                fr = [f for f in traceback.extract_tb(e.__traceback__) if "/sparseSpACE/" in f.filename.replace("\\", "/")]
+                if ("setting an array element with a sequence" in str(e) and fr and fr[-1].name in OPTICOM_CRASH_SITES
+                        and (fr[-1].line or "").startswith("matrix[")):
+                    out.bad("%s/crash/size-1-array-stored-into-scalar-cell:%s" % (sub, fr[-1].name), "%s: %s at %s:%d `%s`"
+                            % (tag, e, fr[-1].filename.split("/")[-1], fr[-1].lineno, fr[-1].line))
+                    out.cls("option-%d-crashed" % option)
+                    continue
+                raise
+            applied += 1
+            coeffs = np.array([np.asarray(g.coefficient, dtype=float).reshape(-1)[0] if np.size(g.coefficient) == 1 else np.nan
+                               for g in combi.scheme])
+            s = float(np.sum(coeffs))
+            out.cls("option-%d-applied" % option)
+            if not np.all(np.isfinite(coeffs)):
+                out.bad("%s/sum/coefficients-not-finite" % sub, "%s: %s" % (tag, coeffs[:6]))
+            elif abs(s - 1.0) > TOL_SUM + 1e-12 * float(np.sum(np.abs(coeffs))):
+                # rounding of the normalisation c_i / sum(c) is proportional to sum|c_i| (ill-conditioned Opticom systems give
+                # coefficients of size 1e8 that cancel); seen on the unchanged tree: <= 5e-17 * sum|c_i|
+                out.bad("%s/sum/not-one" % sub, "%s: sum=%r, sum|c_i|=%.3g" % (tag, s, float(np.sum(np.abs(coeffs)))))
+            if np.isfinite(s):
+                out.info["max_sum_dev_rel"] = max(out.info.get("max_sum_dev_rel", 0.0), abs(s - 1.0) / max(1.0, float(np.sum(np.abs(coeffs)))))
     out.nontrivial = case["d"] >= 2 and len(combi.scheme) >= 3 and applied >= 2
     out.cls("d=%d" % case["d"], "sa" if case["sa"] else "standard", "lambda=0" if case["lam"] == 0 else "lambda>0")
     out.info.update(max_grids=len(combi.scheme), max_dim=case["d"])
@@ -811,15 +917,41 @@ def dimwise_direct_strategy(tier):
 
 
 def train_strategy(tier):
+    lhi = 3 if tier == "quick" else 4
+    pcts = [0.1, 0.2, 0.3, 0.4, 0.5]
+
     @st.composite
     def s(draw):
         d = draw(st.integers(1, 3))
-        lmin = draw(st.integers(1, 2))
-        lmax = draw(st.integers(lmin, 3 if tier == "quick" else 4))
         case = draw(_data(d, 5, 60))
         case.update(_lam_matrix(draw))
-        case.update(lmin=lmin, lmax=lmax, pct=draw(st.sampled_from([0.1, 0.2, 0.3, 0.4, 0.5])),
-                    noisy=draw(st.sampled_from([0, 0, 0, 1])), rng=draw(st.integers(0, 2 ** 20)))
+        ncalls = draw(st.sampled_from([1, 1, 2, 2, 2, 3, 3]))
+        pattern = draw(st.sampled_from(["grow", "grow", "free", "mixed"])) if ncalls > 1 else "free"
+        calls = []
+        if pattern == "grow":
+            # same percentage, same minimum level, growing maximum level (the schemes share level vectors); noisy in half the calls
+            pct, lmin = draw(st.sampled_from(pcts)), draw(st.integers(1, 2))
+            lmax = draw(st.integers(lmin, lhi - 1))
+            for _ in range(ncalls):
+                calls.append(dict(kind="train", pct=pct, lmin=lmin, lmax=min(lmax, lhi + 1), noisy=draw(st.sampled_from([0, 1]))))
+                lmax += draw(st.sampled_from([1, 1, 1, 0]))
+        else:
+            for _ in range(ncalls):
+                kind = "train" if pattern == "free" else draw(st.sampled_from(["train", "sa"]))
+                if kind == "train":
+                    lmin = draw(st.integers(1, 2))
+                    calls.append(dict(kind="train", pct=draw(st.sampled_from(pcts)), lmin=lmin, lmax=draw(st.integers(lmin, lhi)),
+                                      noisy=draw(st.sampled_from([0, 0, 1]))))
+                else:
+                    p = _sa_params(draw, tier)
+                    calls.append(dict(kind="sa", pct=p["pct"], margin=p["margin"], tol=p["tol"], maxev=min(p["maxev"], 25),
+                                      noisy=draw(st.sampled_from([0, 0, 1]))))
+            if not GENERATE_TRAIN_AFTER_SA:      # see the comment at the flag: keep the spatially adaptive calls at the end
+                calls.sort(key=lambda c: c["kind"] == "sa")
+            if any(c["kind"] == "sa" for c in calls) and case["lam"] > 0 and case["matrix"] == "C":
+                # the known smoothing-matrix defects of the dimension-wise variant are the business of train_sa/dimwise_direct
+                case["matrix"] = "I"
+        case.update(calls=calls, rng=draw(st.integers(0, 2 ** 20)))
         return case
     return s()
 
@@ -872,6 +1004,8 @@ def opticom_strategy(tier):
         else:
             lmin = draw(st.integers(1, 2))
             case.update(lmin=lmin, lmax=draw(st.integers(lmin, 3)), pct=draw(st.sampled_from([0.1, 0.2, 0.3, 0.5])))
+            if draw(st.sampled_from([0, 0, 1])):
+                case["second"] = dict(lmax=min(case["lmax"] + 1, 4), options=draw(st.lists(st.sampled_from([1, 2, 3]), min_size=1, max_size=2)))
         return case
     return s()
 
@@ -900,9 +1034,16 @@ def dimwise_direct_fixed():
 def train_fixed():
     base = dict(d=2, pts=_LATTICE9, aff=_IDENT2, pin=False, y=[1., 2., 3., 4., 5., 6., 7., 8., 9.], rng=0, all_defaults=True,
                 pct=0.2, noisy=0)
+    pts = [[((7 * i) % 19 + 1) / 21.0, ((11 * i) % 23 + 1) / 25.0] for i in range(30)]
+    seq = dict(d=2, pts=pts, aff=_IDENT2, pin=False, y=[1.0 + (i % 7) / 2.0 for i in range(30)], rng=3, all_defaults=True)
+    T = lambda lmax, noisy, pct=0.2: dict(kind="train", pct=pct, lmin=1, lmax=lmax, noisy=noisy)
+    S = lambda noisy: dict(kind="sa", pct=0.2, margin=0.7, tol=1e-5, maxev=15, noisy=noisy)
     return [dict(base, lam=0.1, matrix="C", lmin=1, lmax=3), dict(base, lam=0.0, matrix="C", lmin=1, lmax=2),
             dict(d=1, pts=[[0.3]] * 4 + [[0.6]], aff=[[0.0, 1.0]], pin=False, y=[1., 1., 1., 1., 2.], rng=0, all_defaults=True,
-                 pct=0.5, noisy=0, lam=0.1, matrix="C", lmin=1, lmax=3)]
+                 pct=0.5, noisy=0, lam=0.1, matrix="C", lmin=1, lmax=3),
+            # same object, same percentage, growing maximum level, fresh noise in the second call
+            dict(seq, lam=0.0, matrix="C", calls=[T(2, 1), T(3, 1)]), dict(seq, lam=0.1, matrix="I", calls=[T(2, 0), T(3, 1), T(4, 1)]),
+            dict(seq, lam=0.1, matrix="I", calls=[T(2, 1), T(3, 0, 0.3), S(1)]), dict(seq, lam=0.0, matrix="I", calls=[S(0), S(1)])]
 
 
 def train_sa_fixed():
